@@ -575,6 +575,20 @@ class EndpointResponseHandlerGenerator:
                 writer.write_line("yield chunk")
                 writer.dedent()
                 writer.write_line("return  # Explicit return for async generator")
+            elif getattr(strategy.response_ir, "stream_format", None) == "ndjson":
+                # Newline-delimited JSON: one JSON document per line, each decoded as the declared item type
+                item_type = strategy.return_type[len("AsyncIterator[") : -1]
+                context.add_import(f"{context.core_package_name}.streaming_helpers", "iter_ndjson")
+                writer.write_line("async for item in iter_ndjson(response):")
+                writer.indent()
+                if self._should_use_cattrs_structure(item_type):
+                    context.add_typing_imports_for_type(item_type)
+                    self._register_cattrs_import(context)
+                    writer.write_line(f"yield {self._get_cattrs_deserialization_code(item_type, 'item')}")
+                else:
+                    writer.write_line("yield item")
+                writer.dedent()
+                writer.write_line("return  # Explicit return for async generator")
             else:
                 # Handle other streaming types
                 context.add_plain_import("json")
